@@ -11,6 +11,7 @@ Nothing here mutates its arguments.
 import datetime
 import functools
 import math
+import zoneinfo
 
 from ..common import canon_flat
 from . import values as rv
@@ -278,3 +279,31 @@ def csv_lines(fields, rows):
     for cells in rows:
         lines.append(','.join(csv_quote(cell_text(value, style)) for value, style in cells))
     return lines
+
+
+# ---------------------------------------------------------------------------------------------------------------------
+# datetimes in a named time zone (CSV under a process time zone that has daylight saving time)
+#   an instant is a naive UTC datetime; its text carries an explicit offset; reading it gives the naive local time of
+#   the zone *with the offset in force at that instant* (zoneinfo rules, independent of the process TZ / time.tzset)
+# ---------------------------------------------------------------------------------------------------------------------
+
+def zone_offset_minutes(instant_utc, zone):
+    aware = instant_utc.replace(tzinfo=datetime.timezone.utc).astimezone(zoneinfo.ZoneInfo(zone))
+    return int(aware.utcoffset().total_seconds()) // 60
+
+
+def zone_local(instant_utc, zone):
+    return instant_utc.replace(tzinfo=datetime.timezone.utc).astimezone(zoneinfo.ZoneInfo(zone)).replace(tzinfo=None)
+
+
+def instant_text(instant_utc, offset_minutes, zulu=False):
+    """ISO text of the instant as seen at the given offset: YYYY-MM-DDTHH:MM:SS[.mmm] followed by Z or +hh:mm / -hh:mm."""
+    shown = instant_utc + datetime.timedelta(minutes=offset_minutes)
+    text = f'{shown.year:04d}-{shown.month:02d}-{shown.day:02d}T{shown.hour:02d}:{shown.minute:02d}:{shown.second:02d}'
+    if shown.microsecond:
+        text += f'.{shown.microsecond // 1000:03d}'
+    if zulu:
+        assert offset_minutes == 0
+        return text + 'Z'
+    sign = '-' if offset_minutes < 0 else '+'
+    return f'{text}{sign}{abs(offset_minutes) // 60:02d}:{abs(offset_minutes) % 60:02d}'
